@@ -406,3 +406,43 @@ reg(Prop("C11", "FEN parsing and printing are inverse and robust", "Properties/C
          assumptions=["round trip: halfmove clock 0..100 (F6: the parser's range, pinned by the test-suite), fullmove number 1..2^63-1",
                       "wf: the three encodings of the placement agree (no chess validity needed)"],
          classify=_c11_classify, design_ref="5/C11"))
+
+def c12_refine(w):
+    """Witness refinement for C12 (never classifies as known): the judge names the first failing
+    lookup of a batched slider case; rewrite the witness into that single lookup so that the replay
+    is one concrete (piece, square, occupancy)."""
+    kinds = ["bishop", "rook", "king", "knight", "pawn-capture", "pawn-push", "between"]
+    try:
+        v = w["verdict"].split()
+        kind = int(w["input"].split()[0], 16)
+        if len(v) == 6 and v[0] == "0" and kind in (0, 1):
+            sq, occ, obs, exp = v[2], v[3], v[4], v[5]
+            w["batch_input"] = w["input"][:400]
+            w["input"] = f"{kind:x} {sq} {occ}"
+            w["impl_output"] = obs
+            w["desc"] = f"{kinds[kind]} sq={int(sq, 16)} occ=0x{occ} observed=0x{obs} geometric=0x{exp}"
+            w["replay_hint"] = f"echo '{w['input']}' | build/bin/h run c12"
+        elif len(v) == 6 and v[0] == "0" and kind < len(kinds):
+            w["desc"] = f"{w.get('desc', '')} observed=0x{v[4]} geometric=0x{v[5]}"
+    except (ValueError, IndexError, KeyError):
+        pass
+    return None
+
+
+reg(Prop("C12", "Attack tables equal ray-walking geometry for every square and occupancy", "Properties/C12.v",
+         [StreamCfg("c12", 13000, 1000000, judge="judge_c12",
+                    rule="both tiers: EVERY subset of every relevant-occupancy mask of every square (107 648 lookups, own "
+                         "carry-rippler from the empty set) through attacks.BishopMoves/RookMoves, in batches of up to 512 lookups "
+                         "per case (a case is one line); full-board occupancies (all ones, complement of the mask, random "
+                         "uniform/sparse/dense): 64 per square and slider in the quick tier, n/128 in the thorough tier; every "
+                         "king/knight cell; pawn captures/pushes for every single square and colour plus special and random pawn "
+                         "sets (256 / 20 000 per kind and colour); every InBetween cell (4096); distinct by input line")],
+         trusted=["hook attacks/export_verif.go (VerifGetTables copies the constant tables; VerifBishopCell/VerifRookCell "
+                  "are used only to read the array lengths 512/4096)",
+                  "the init-time fill loop, the reference walkers and initInBetween are hand-modelled (Model/Attacks.v) and tied "
+                  "to the code by the correspondence stream (exhaustive over mask subsets in the thorough tier); the constants "
+                  "are translated"],
+         assumptions=["squares are 0..63 (anything else is an index out of range in Go)",
+                      "pawn sets are 64-bit bitboards (b < 2^64); slider occupancies are arbitrary"],
+         classify=c12_refine,
+         design_ref="5/C12"))
